@@ -225,6 +225,8 @@ def pacAttr (ch : Channel) (c2 : Nat) : Channel :=
     memories when it moves -/
 def pacRelocate (ch : Channel) (row : Nat) : Channel :=
   if ch.roll = 0 then ch.fail "pac: roll - 1 < 0" else
+  -- `if (row1 < 0) row1 = 0;` (generated fact `pacRow1Clamped`): without it the window start is negative
+  if !pacRow1Clamped && decide (row + 1 < ch.roll) then ch.fail "pac: row1 < 0" else
   let row1 := row + 1 - ch.roll          -- `row - roll + 1`, clamped at 0
   let ch := if row1 != ch.row1 then
       eraseMemory (eraseMemory { ch with row1 := row1 } ch.hidden) (!ch.hidden)
@@ -257,6 +259,11 @@ def backspace (ch : Channel) (chan : Nat) : Channel :=
     if ch.col < ch.col1 then { ch with col1 := ch.col } else ch
   else ch
 
+/-- CR, roll branch, step 1: `word_break(cc, ch, 1); update(ch);` - with the repair of finding F45b
+    (`crPopOnNoUpdate`, generated) the update is skipped in pop-on mode -/
+def crSync (ch : Channel) : Channel :=
+  if crPopOnNoUpdate && ch.mode == .popOn then wordBreak ch true else update (wordBreak ch true)
+
 /-- CR, roll branch, step 2: `memmove(acp, acp + COLUMNS, sizeof(*acp) * (ch->roll - 1) * COLUMNS)` on page `b` -/
 def crMove (x : Channel) (b : Bool) : Channel :=
   let p := x.pg b
@@ -285,7 +292,7 @@ def carriageReturn (ch : Channel) (chan : Nat) : Channel :=
     setCursor (wordBreak ch true) 1 (ch.row + 1)
   else
     -- `acp = &ch->pg[ch->hidden ^ (ch->mode != MODE_POP_ON)].text[ch->row1 * COLUMNS]`
-    crFinish (crClear (crMove (update (wordBreak ch true)) (ch.hidden != (ch.mode != .popOn))) chan) lastRow
+    crFinish (crClear (crMove (crSync ch) (ch.hidden != (ch.mode != .popOn))) chan) lastRow
 
 /-- Delete To End Of Row -/
 def deleteToEnd (ch : Channel) (chan : Nat) : Channel :=
@@ -331,10 +338,17 @@ def specialChar (ch : Channel) (chan c2 : Nat) : Channel :=
     else wr ch (columns - 2) (transpSpace (decide (4 ≤ chan))) "transparent space: last column"
   else putChar ch { ch.attr with unicode := captionUnicode (0x1130 ||| k) }
 
+/-- colour / italics part of a mid-row code.  `midrowItalicsKeepsColour` (generated) says whether the italics
+    branch leaves the foreground alone (47 CFR 15.119 (h)(1)(ii)) or sets it to white (finding F46) -/
+def setColourMid (ch : Channel) (k : Nat) : Channel :=
+  if k < 7 then { ch with attr := { ch.attr with italic := false, fg := palette k } }
+  else if midrowItalicsKeepsColour then { ch with attr := { ch.attr with italic := true } }
+  else { ch with attr := { ch.attr with italic := true, fg := colWhite } }
+
 /-- mid-row codes -/
 def midRow (ch : Channel) (c2 : Nat) : Channel :=
   let ch := { ch with attr := { ch.attr with flash := false, underline := c2 &&& 1 != 0 } }
-  putCharSpace (setColour ch ((c2 >>> 1) &&& 7))
+  putCharSpace (setColourMid ch ((c2 >>> 1) &&& 7))
 
 /-- background attribute codes -/
 def backgroundAttr (ch : Channel) (c2 : Nat) : Channel :=
@@ -369,13 +383,19 @@ def St.modCh (s : St) (i : Nat) (f : Channel → Channel) : St :=
 def St.switchChannel (s : St) (chan new : Nat) : St :=
   { s.modCh chan (fun ch => wordBreak ch true) with currChan := new }
 
+/-- RUx, the erase: both memories; with the repair of finding F45a (`ruEraseRaisesEvent`, generated) followed by
+    `clear(ch->pg + (ch->hidden ^ 1))`, which raises the caption event -/
+def ruErase (ch : Channel) : Channel :=
+  let y := eraseMemory (eraseMemory ch ch.hidden) (!ch.hidden)
+  if ruEraseRaisesEvent then (y.setPg (!ch.hidden) (y.pg (!ch.hidden)).clear).event else y
+
+/-- RUx, the rest: `mode = MODE_ROLL_UP; roll = n; set_cursor(ch, 1, 14); row1 = 14 - roll + 1` -/
+def ruFinish (y : Channel) (roll : Nat) : Channel :=
+  { setCursor { y with mode := .rollUp, roll := roll } 1 14 with row1 := 14 - roll + 1 }
+
 def rollUpCmd (ch : Channel) (roll : Nat) : Channel :=
   if ch.mode == .rollUp && ch.roll == roll then ch else
-  let ch := eraseMemory ch ch.hidden
-  let ch := eraseMemory ch (!ch.hidden)
-  let ch := { ch with mode := .rollUp, roll := roll }
-  let ch := setCursor ch 1 14
-  { ch with row1 := 14 - roll + 1 }
+  ruFinish (ruErase ch) roll
 
 /-- End Of Caption after the word break: `ch->hidden ^= 1; render(ch->pg + (ch->hidden ^ 1), -1);
     erase_memory(cc, ch, ch->hidden); set_cursor(ch, 1, ROWS - 1)` -/
@@ -494,9 +514,11 @@ def chswAttr (ch : Channel) : Channel :=
 
 /-- part 3: `set_cursor(ch, 1, ch->row); ... ch->hidden = 0;` in the order found in the source
     (`chswHiddenResetFirst` is extracted by translate/gen_cc.py; `false` = finding F17) -/
-def chswCursor (ch : Channel) : Channel :=
-  if chswHiddenResetFirst then setCursor { ch with hidden := false } 1 ch.row
+def chswCursorWith (hiddenFirst : Bool) (ch : Channel) : Channel :=
+  if hiddenFirst then setCursor { ch with hidden := false } 1 ch.row
   else { setCursor ch 1 ch.row with hidden := false }
+
+def chswCursor (ch : Channel) : Channel := chswCursorWith chswHiddenResetFirst ch
 
 /-- part 4: `pg[0].dirty = ...; erase_memory(cc, ch, 0); memcpy(&ch->pg[1], &ch->pg[0], sizeof(ch->pg[1]))` -/
 def chswPages (ch : Channel) : Channel :=
@@ -504,9 +526,15 @@ def chswPages (ch : Channel) : Channel :=
   { ch with pg1 := ch.pg0 }
 
 /-- loop body of `vbi_caption_channel_switched` -/
-def chswChannel (ch : Channel) : Channel := chswPages (chswCursor (chswAttr (chswGeom ch)))
+def chswChannelWith (hiddenFirst : Bool) (ch : Channel) : Channel :=
+  chswPages (chswCursorWith hiddenFirst (chswAttr (chswGeom ch)))
 
-def St.chsw (s : St) : St := { s with chans := s.chans.map chswChannel, xds := false }
+def chswChannel (ch : Channel) : Channel := chswChannelWith chswHiddenResetFirst ch
+
+def St.chswWith (hiddenFirst : Bool) (s : St) : St :=
+  { s with chans := s.chans.map (chswChannelWith hiddenFirst), xds := false }
+
+def St.chsw (s : St) : St := s.chswWith chswHiddenResetFirst
 
 /-- `vbi_caption_init` -/
 def init : St :=
@@ -538,6 +566,14 @@ def step (s : St) : Op → St
   | .chsw => s.chsw
 
 def run (ops : List Op) : St := ops.foldl step init
+
+/-- `step` / `run` with the statement order of `vbi_caption_channel_switched` given explicitly
+    (`false` = the order before commit 19e972f, finding F43) -/
+def stepWith (hiddenFirst : Bool) (s : St) : Op → St
+  | .chsw => s.chswWith hiddenFirst
+  | op => step s op
+
+def runWith (hiddenFirst : Bool) (ops : List Op) : St := ops.foldl (stepWith hiddenFirst) init
 
 /-- first recorded error of the decoder or of any channel -/
 def St.firstErr (s : St) : Option String :=
